@@ -192,16 +192,18 @@ class OwnDomain(Domain):
                 self.state_writes.append((cls.name, attr, site, legal))
                 continue
             stack = [f.func.qualname for f in frame.stack()]
-            self.findings.append(
-                Finding(
-                    "OWN-ATTR",
-                    fi.module,
-                    fi.qualname,
-                    node,
-                    "evaluation path rebinds attribute '%s' of %s" % (attr, cls.name),
-                    witness=stack,
-                )
+            fnd = Finding(
+                "OWN-ATTR",
+                fi.module,
+                fi.qualname,
+                node,
+                "evaluation path rebinds attribute '%s' of %s" % (attr, cls.name),
+                witness=stack,
             )
+            # what kind of value is kept (a tensor kept across calls matters to C16 / C19 as well)
+            fnd.value_kind = getattr(value, "kind", None) if value is not None else None
+            fnd.attr = attr
+            self.findings.append(fnd)
 
     def on_container_mutation(self, interp, chain, how, node):
         frame = interp.frame
@@ -220,7 +222,10 @@ class OwnDomain(Domain):
                 if (c.name, attr) in ATTR_EFFECTS or (c.name, attr) in EFFECTS:
                     return  # a documented effect (the Linear cache memo)
         stack = [f.func.qualname for f in frame.stack()]
-        self.findings.append(Finding("OWN-ATTR", fi.module, fi.qualname, node, "evaluation path mutates the container kept in '%s' (%s): the model remembers something about this call" % (chain, how), witness=stack))
+        fnd = Finding("OWN-ATTR", fi.module, fi.qualname, node, "evaluation path mutates the container kept in '%s' (%s): the model remembers something about this call" % (chain, how), witness=stack)
+        fnd.value_kind = "container"
+        fnd.attr = attr
+        self.findings.append(fnd)
 
     def nonempty_loop(self, interp, frame, node):
         from . import facts
